@@ -85,8 +85,11 @@ static Outcome runCase(const KV& c)
             haveSetup = false;
             continue;
         }
+        if (k > 0 && !doSetup)
+            o.cls("options_changed_without_setup");
         if (k > 0) {
             const SolverCfg& pv = cfgs[k - 1];
+            if (pv.cycle != cfg.cycle && !doSetup) o.cls("changed_cycle_without_setup");
             if (pv.dirbc != cfg.dirbc) o.cls("changed_dirbc");
             if (pv.threads != cfg.threads || pv.reduction != cfg.reduction) o.cls("changed_threads");
             if (pv.R0 != cfg.R0 || pv.aniso != cfg.aniso || pv.div != cfg.div || pv.nr_exp != cfg.nr_exp) o.cls("changed_grid");
@@ -174,6 +177,43 @@ static KV genCase()
     s.strategy   = rint(0, 1);
     const bool pattern = rint(0, 3) == 0; // the convergence_order loop: only divideBy2 changes
     for (int k = 0; k < rounds; k++) {
+        if (k > 0 && !pattern && rint(0, 2) == 0) {
+            // only options that solve() reads itself change (one to three of them), and setup() is NOT called again:
+            // the next solve must behave like a fresh object that was given the new values before its setup()
+            const int nchg = rint(1, 3);
+            for (int q = 0; q < nchg; q++)
+                switch (rint(0, 7)) {
+                case 0:
+                case 1:
+                    s.cycle = (s.cycle + rint(1, 2)) % 3;
+                    break;
+                case 2:
+                    s.pre = 3 - s.pre;
+                    break;
+                case 3:
+                    s.post = 3 - s.post;
+                    break;
+                case 4:
+                    s.max_its = rpick({150, 3, 7, 1});
+                    break;
+                case 5:
+                    s.norm = (s.norm + rint(1, 2)) % 3;
+                    break;
+                case 6:
+                    s.rel_tol = rpick({1e-6, 1e-8, 1e-10});
+                    s.abs_tol = rpick({-1.0, 1e-8, 1e-12});
+                    break;
+                default:
+                    s.fmg_its   = rint(0, 2);
+                    s.fmg_cycle = rint(0, 2);
+                    break;
+                }
+            s.put(c, "r" + std::to_string(k) + "_");
+            c.putI("r" + std::to_string(k) + "_setup", 0);
+            c.putI("r" + std::to_string(k) + "_solves", rweighted({0, 3, 1}));
+            c.putI("r" + std::to_string(k) + "_solve_time_only", 1);
+            continue;
+        }
         if (k == 0 || !pattern) {
             // (re)draw a handful of options, always including the state-carrying ones
             s.extrapolation = rweighted({2, 2, 1, 4});
